@@ -100,7 +100,7 @@ theorem fate_unique (one : Int) (hs : List HeadInfo) (cs : List Nat) (hn : (hs.m
   have hnd : hs.Nodup := Pairwise.of_map (·.uid) (fun a b hab e => hab (by rw [e])) hn
   exact pair_unique_of_nodup_fst (hp.nodup_iff.2 hnd) h1 h2
 
-example : ([⟨1, 1, 1, [3], 1, some 10, 1, true, false⟩, ⟨2, 2, 1, [3], 2, none, 0, false, false⟩] : List HeadInfo).map (·.uid) |>.Nodup := by
+example : ([⟨1, 1, 1, [3], 1, some 10, 1, true, false, true⟩, ⟨2, 2, 1, [3], 2, none, 0, false, false, true⟩] : List HeadInfo).map (·.uid) |>.Nodup := by
   decide
 
 /-- `loops_independent`: what happens to the heads of loop `l` is what `resolve` does on these heads alone, given
@@ -171,12 +171,12 @@ theorem cowin_action_shared_once (one : Int) (g : List HeadInfo) (c : Nat) (t : 
     scopeOf b (applyFates none (resolveGroup one g c) t) = some (1 + cowinRefs (resolveGroup one g c)) :=
   group_scope_count one g c t w b hw hb hst hin hd
 
-/-- … which is "number of co-winners + 1" when every co-winner holds its own action through exactly one reference
+/-- … which is "number of co-winners + 1" when every co-winner OWNS its action and holds it through exactly one reference
     (what `start Action(...)` produces). -/
 theorem cowin_scope_is_number_of_cowinners (one : Int) (g : List HeadInfo) (c : Nat) (t : ActTbl) (w : HeadInfo) (b : Nat)
     (hw : (w, Fate.picked) ∈ resolveGroup one g c) (hb : w.act = some b) (hst : w.isStart = true)
     (hin : (scopeOf b t).isSome = true) (hd : ∀ h ∈ g, h.uid ≠ w.uid → h.act ≠ some b)
-    (h1 : ∀ p ∈ resolveGroup one g c, p.2 = Fate.cowin → p.1.act.isSome = true ∧ p.1.nrefs = 1) :
+    (h1 : ∀ p ∈ resolveGroup one g c, p.2 = Fate.cowin → p.1.act.isSome = true ∧ p.1.nrefs = 1 ∧ p.1.owns = true) :
     scopeOf b (applyFates none (resolveGroup one g c) t) =
       some (1 + ((resolveGroup one g c).filter (fun p => p.2 == Fate.cowin)).length) := by
   rw [group_scope_count one g c t w b hw hb hst hin hd, cowinRefs_eq_count _ h1]
@@ -197,15 +197,15 @@ theorem cowin_action_shared_once_whole_call (one : Int) (hs : List HeadInfo) (cs
   exact hd h (mem_filter.1 hh).1
 
 /-- non-vacuity of the hypotheses of the theorems above: winner 2 (action 11), co-winner 1 (action 10). -/
-example : (⟨2, 2, 1, [3], 1, some 11, 1, true, false⟩, Fate.picked) ∈
-    resolveGroup 5 [⟨1, 1, 1, [3], 1, some 10, 1, true, false⟩, ⟨2, 2, 1, [3], 1, some 11, 1, true, false⟩] 1 := by decide
+example : (⟨2, 2, 1, [3], 1, some 11, 1, true, false, true⟩, Fate.picked) ∈
+    resolveGroup 5 [⟨1, 1, 1, [3], 1, some 10, 1, true, false, true⟩, ⟨2, 2, 1, [3], 1, some 11, 1, true, false, true⟩] 1 := by decide
 
 /-- The co-winner branch of the UNPATCHED source deletes the winning action when both heads already share it
     (open finding `cowin-on-shared-action`); the repaired branch (`cowinEffect`, fixes/C05-shared-action-cowin.diff)
     leaves it alone.  Finite witness, by evaluation. -/
 theorem shared_action_cowin_as_is_counterexample :
-    scopeOf 10 (cowinEffectAsIs ⟨1, 1, 1, [5], 1, some 10, 1, false, false⟩ ⟨2, 2, 1, [5], 1, some 10, 1, false, false⟩ [(10, 2)]) = none ∧
-    scopeOf 10 (cowinEffect ⟨1, 1, 1, [5], 1, some 10, 1, false, false⟩ ⟨2, 2, 1, [5], 1, some 10, 1, false, false⟩ [(10, 2)]) = some 2 := by
+    scopeOf 10 (cowinEffectAsIs ⟨1, 1, 1, [5], 1, some 10, 1, false, false, true⟩ ⟨2, 2, 1, [5], 1, some 10, 1, false, false, true⟩ [(10, 2)]) = none ∧
+    scopeOf 10 (cowinEffect ⟨1, 1, 1, [5], 1, some 10, 1, false, false, true⟩ ⟨2, 2, 1, [5], 1, some 10, 1, false, false, true⟩ [(10, 2)]) = some 2 := by
   decide
 
 /-- The co-winner test of the UNPATCHED source (`Event.is_equal` alone) lets the Stop events of two DIFFERENT action
@@ -213,9 +213,9 @@ theorem shared_action_cowin_as_is_counterexample :
     stops action 10 — as is: co-winner (action 11 is dropped, never stopped); repaired (`sameEv`): a loser, its flow is
     aborted.  Finite witness, by evaluation. -/
 theorem identical_event_of_different_actions_as_is_counterexample :
-    fateOfAsIs ⟨1, 1, 1, [5], 1, some 10, 1, false, false⟩ ⟨2, 2, 1, [5], 1, some 11, 1, false, false⟩ = Fate.cowin ∧
-    fateOf ⟨1, 1, 1, [5], 1, some 10, 1, false, false⟩ ⟨2, 2, 1, [5], 1, some 11, 1, false, false⟩ = Fate.aborted ∧
-    fateOf ⟨1, 1, 1, [5], 1, some 10, 1, true, false⟩ ⟨2, 2, 1, [5], 1, some 11, 1, true, false⟩ = Fate.cowin := by
+    fateOfAsIs ⟨1, 1, 1, [5], 1, some 10, 1, false, false, true⟩ ⟨2, 2, 1, [5], 1, some 11, 1, false, false, true⟩ = Fate.cowin ∧
+    fateOf ⟨1, 1, 1, [5], 1, some 10, 1, false, false, true⟩ ⟨2, 2, 1, [5], 1, some 11, 1, false, false, true⟩ = Fate.aborted ∧
+    fateOf ⟨1, 1, 1, [5], 1, some 10, 1, true, false, true⟩ ⟨2, 2, 1, [5], 1, some 11, 1, true, false, true⟩ = Fate.cowin := by
   decide
 
 /-- A head that is not in the input (its match did not fit: score 0, never actionable) has no fate: the function
@@ -367,15 +367,15 @@ theorem ordered_is_stable_mergeSort (one : Int) (g : List HeadInfo) :
 
 /-! Concrete witnesses (finite facts, by evaluation): a 4-head call with a tie, a co-winner, a loser and a second loop. -/
 def exHeads : List HeadInfo :=
-  [⟨1, 1, 1, [3], 1, some 10, 1, true, false⟩, ⟨2, 2, 1, [3], 1, some 11, 1, true, false⟩,
-   ⟨3, 3, 1, [2], 2, none, 0, false, false⟩, ⟨4, 4, 2, [1, 5], 3, some 13, 1, true, false⟩]
+  [⟨1, 1, 1, [3], 1, some 10, 1, true, false, true⟩, ⟨2, 2, 1, [3], 1, some 11, 1, true, false, true⟩,
+   ⟨3, 3, 1, [2], 2, none, 0, false, false, true⟩, ⟨4, 4, 2, [1, 5], 3, some 13, 1, true, false, true⟩]
 
 example : (resolveFates 5 exHeads [1, 0]).map (fun p => (p.1.uid, p.2)) =
     [(2, .picked), (1, .cowin), (3, .aborted), (4, .picked)] := by decide
 example : advancing (resolveFates 5 exHeads [1, 0]) = [2, 1, 4] ∧ abortedFlows (resolveFates 5 exHeads [1, 0]) = [3] := by decide
 example : applyFates none (resolveFates 5 exHeads [1, 0]) [(10, 0), (11, 0), (13, 0)] = [(11, 2), (13, 1)] := by decide
 /-- padding matters: [0.9] (rank 3) against [0.9, 0.5] (ranks 3, 1) — the shorter vector wins when padded with 1.0 (rank 5) -/
-example : (resolveFates 5 [⟨1, 1, 1, [3, 1], 1, none, 0, false, false⟩, ⟨2, 2, 1, [3], 2, none, 0, false, false⟩] []).map
+example : (resolveFates 5 [⟨1, 1, 1, [3, 1], 1, none, 0, false, false, true⟩, ⟨2, 2, 1, [3], 2, none, 0, false, false, true⟩] []).map
     (fun p => (p.1.uid, p.2)) = [(2, .picked), (1, .aborted)] := by decide
 
 end NemoVerif.C05
